@@ -49,13 +49,41 @@ taken as a configuration (with the code's name automaton) -/
 theorem C13_wellFormed_iff_valid (inp : BuilderInput) : WellFormed inp ↔ Valid inp.toConfig := by
   simp only [WellFormed, Valid, BuilderInput.toConfig, checkLoggerName_eq_specName]
 
+/-- the Bool the executable Spec uses is the Prop of the theorems -/
+theorem C13_wellFormedB_iff (inp : BuilderInput) : wellFormedB inp = true ↔ WellFormed inp := by
+  simp [wellFormedB, WellFormed, and_assoc]
+
+/-- Well-formedness item by item ("raw defects"): an input is well-formed iff no appender repeats an
+earlier name, every logger has a new, well-formed name and only declared references — whether or
+not the logger would be kept —, and the root has only declared references. -/
+theorem C13_wellFormed_iff_no_raw_defect (inp : BuilderInput) : WellFormed inp ↔
+    (∀ i a, inp.appenders[i]? = some a → a.name ∉ (inp.appenders.take i).map (·.name)) ∧
+    (∀ i l, inp.loggers[i]? = some l → l.name ∉ (inp.loggers.take i).map (·.name) ∧
+       specName l.name = true ∧ ∀ r ∈ l.appenders, r ∈ declared inp) ∧
+    (∀ r ∈ inp.rootAppenders, r ∈ declared inp) := by
+  unfold WellFormed declared
+  rw [nodup_iff_no_earlier (fun a : AppenderDecl => a.name) inp.appenders,
+    nodup_iff_no_earlier (fun l : LoggerCfg => l.name) inp.loggers]
+  constructor
+  · rintro ⟨h1, h2, h3, h4⟩
+    refine ⟨h1, ?_, h4⟩
+    intro i l hl
+    have hm : l ∈ inp.loggers := List.mem_of_getElem? hl
+    exact ⟨h2 i l hl, h3 l hm⟩
+  · rintro ⟨h1, h2, h4⟩
+    refine ⟨h1, fun i l hl => (h2 i l hl).1, ?_, h4⟩
+    intro l hm
+    obtain ⟨i, hi⟩ := List.getElem?_of_mem hm
+    exact (h2 i l hi).2
+
 /-- "Strict building succeeds exactly for [well-formed] configurations" -/
 theorem C13_build_ok_iff (inp : BuilderInput) : isOk (build inp) = true ↔ WellFormed inp := by
   rw [← specErrors_nil_iff, ← (buildLossy_eq_spec inp).2]
   simp only [build]
   cases h : (buildLossy inp).errors <;> simp [isOk]
 
-/-- … and then returns the input unchanged (every appender object, the root, every logger). -/
+/-- … and then returns the input unchanged: every appender (name and identity of the boxed object —
+filters and the object's content travel with it and are not modelled), the root, every logger. -/
 theorem C13_build_ok_returns_input (inp : BuilderInput) (h : WellFormed inp) :
     build inp = .ok inp.toConfig ∧ (buildLossy inp).kept = inp.appenders := by
   have hs := (buildLossy_eq_spec inp).1
@@ -90,11 +118,39 @@ theorem C13_errors_sound (inp : BuilderInput) (e : CfgError) (h : e ∈ (buildLo
   rw [C13_errors_exact] at h
   exact (mem_specErrors_iff inp e).mp h
 
-/-- "every offending item is named in the reported errors" -/
+/-- "every offending item is named in the reported errors" — for the offending items as the builder
+names them (`Offending`); for the references inside dropped loggers see `C13_every_defect_covered`. -/
 theorem C13_errors_complete (inp : BuilderInput) (e : CfgError) (h : Offending inp e) :
     e ∈ (buildLossy inp).errors := by
   rw [C13_errors_exact]
   exact (mem_specErrors_iff inp e).mpr h
+
+/-- What happens to the defects that are NOT separately reported: a dangling reference `r` of ANY
+logger item — kept or not — is either reported itself, or sits in a logger that is reported as a
+duplicate or as badly named. No raw defect is silently swallowed. (Appender duplicates and dangling
+root references are always reported themselves: `Offending.dupAppender`, `.danglingRoot`.) -/
+theorem C13_every_defect_covered (inp : BuilderInput) (i : Nat) (l : LoggerCfg) (r : Name)
+    (hl : inp.loggers[i]? = some l) (hr : r ∈ l.appenders) (hd : r ∉ declared inp) :
+    ⟨.nonexistent, r⟩ ∈ (buildLossy inp).errors ∨
+    ⟨.dupLogger, l.name⟩ ∈ (buildLossy inp).errors ∨
+    ⟨.invalidName, l.name⟩ ∈ (buildLossy inp).errors := by
+  by_cases hdup : l.name ∈ (inp.loggers.take i).map (·.name)
+  · exact Or.inr (Or.inl (C13_errors_complete inp _ (Offending.dupLogger i l hl hdup)))
+  · by_cases hv : specName l.name = true
+    · exact Or.inl (C13_errors_complete inp _ (Offending.danglingLogger i l r hl hdup hv hr hd))
+    · have hv' : specName l.name = false := by simpa using hv
+      exact Or.inr (Or.inr (C13_errors_complete inp _ (Offending.invalidName i l hl hdup hv')))
+
+/-- … and every badly named or repeated logger is reported whatever else is wrong with it. -/
+theorem C13_every_bad_logger_reported (inp : BuilderInput) (i : Nat) (l : LoggerCfg)
+    (hl : inp.loggers[i]? = some l)
+    (hbad : l.name ∈ (inp.loggers.take i).map (·.name) ∨ specName l.name = false) :
+    ⟨.dupLogger, l.name⟩ ∈ (buildLossy inp).errors ∨ ⟨.invalidName, l.name⟩ ∈ (buildLossy inp).errors := by
+  by_cases hdup : l.name ∈ (inp.loggers.take i).map (·.name)
+  · exact Or.inl (C13_errors_complete inp _ (Offending.dupLogger i l hl hdup))
+  · rcases hbad with h | h
+    · exact absurd h hdup
+    · exact Or.inr (C13_errors_complete inp _ (Offending.invalidName i l hl hdup h))
 
 /-- the strict path reports the same errors -/
 theorem C13_strict_errors_sound_complete (inp : BuilderInput) (es : List CfgError)
@@ -165,8 +221,9 @@ theorem C13_install_no_panic (cfg : Config) (h : Valid cfg) :
   intro p hp
   exact hrange _ _ (hl3 p hp)
 
-/-- Resolution succeeds exactly when every reference names a declared appender — the guarantee of
-the builder is what `Logger::new` needs, no more. -/
+/-- The `appender_map[name]` lookups of `SharedLogger::new` succeed exactly when every reference
+names a declared appender (uniqueness and name validity are not needed for THIS panic; they are what
+the routing theorems of C01 need). -/
 theorem C13_install_ok_iff (cfg : Config) :
     (∃ r, install cfg = .ok r) ↔
       (∀ a ∈ cfg.rootAppenders, a ∈ cfg.appenders) ∧
